@@ -46,7 +46,7 @@ where
     const NUL: u8 = 0x00;
 
     let mut iter = frequencies.iter().enumerate();
-    let mut prev_sym = 0;
+    let mut prev_sym = None;
 
     while let Some((sym, &f)) = iter.next() {
         if f == 0 {
@@ -56,18 +56,23 @@ where
         // SAFETY: `sym <= ALPHABET_SIZE`.
         write_u8(writer, sym as u8)?;
 
-        if sym > 0 && sym - 1 == prev_sym {
-            let i = sym + 1;
-            let len = frequencies[i..].iter().position(|&g| g == 0).unwrap_or(0);
+        if sym > 0 && prev_sym == Some(sym - 1) {
+            let next_frequencies = &frequencies[sym + 1..];
+
+            let len = next_frequencies
+                .iter()
+                .position(|&g| g == 0)
+                .unwrap_or(next_frequencies.len());
 
             // SAFETY: `len < ALPHABET_SIZE`.
             write_u8(writer, len as u8)?;
 
             write_itf8(writer, i32::from(f))?;
+            prev_sym = Some(sym);
 
             for (sym, &g) in iter.by_ref().take(len) {
                 write_itf8(writer, i32::from(g))?;
-                prev_sym = sym;
+                prev_sym = Some(sym);
             }
 
             continue;
@@ -75,7 +80,7 @@ where
 
         write_itf8(writer, i32::from(f))?;
 
-        prev_sym = sym;
+        prev_sym = Some(sym);
     }
 
     write_u8(writer, NUL)?;
